@@ -1125,6 +1125,15 @@ def run(ctx):
         for dtype in ("float64", "float32"):
             ctx.run("cls_payoff", {"dtype": dtype, "T": T, "A16": alpha(T), "strikes16": strikes_all})
         ctx.run("cls_payoff", {"dtype": "float64", "T": T, "A16": alpha(T), "strikes16": [16, 20], "explicit": False})
+    # non-positive strikes ("all strikes"): price >= K is not price / K >= 1 there (seeded C12-27); a negative price
+    # symbol makes the comparison with K = 0 and K < 0 two-sided (rates, spreads)
+    ctx.alphabet("strike/16 (non-positive, with price symbols -8, 12, 20)", [0, -16, -4])
+    for T in [t for t in Ts if t <= 3]:
+        for dtype in ("float64", "float32"):
+            ctx.run("cls_payoff", {"dtype": dtype, "T": T, "A16": [-8, 12, 20], "strikes16": [0, -16, -4]})
+        for kind in KINDS:
+            ctx.run("fn_payoff", {"kind": kind, "dtype": "float64", "T": T, "A16": [-8, 12, 20],
+                                  "strikes16": [0, -16, -4], "calls": [True, False], "layouts": ["flat"]})
     # one path only (N = 1)
     for p in ([16], [12, 20], [20, 24, 16]):
         ctx.run("cls_payoff", {"dtype": "float64", "paths16": [p], "strikes16": [16, 18]})
